@@ -16,6 +16,7 @@ io-loop work are *observed* (reader / writer / dict / future hooks), never assum
 """
 import asyncio
 import concurrent.futures
+import contextvars
 import pickle
 import signal
 import struct
@@ -28,6 +29,36 @@ STEP_TIMEOUT = 5.0      # hang detector for a single caller step / wake-up (norm
 
 class Abort(BaseException):
     """raised inside parked caller threads at teardown"""
+
+
+ON_KLONG = contextvars.ContextVar("c14_on_klong_loop", default=False)
+
+
+async def _noop():
+    return None
+
+
+def evaluate_text(h, text):
+    """what both stand-in interpreters do with a command text. A `relay…` command stands for a
+    function that itself makes a remote call: it needs the io loop to make progress while it is
+    evaluated, so it must run on the interpreter loop. Evaluated from a task that was NOT
+    scheduled through the klong loop it really blocks on the io loop (bounded) - which can never
+    complete on the io loop's own thread."""
+    if not ON_KLONG.get():
+        h.off_klong_evals.append(text)
+        if text.startswith("relay"):
+            f = asyncio.run_coroutine_threadsafe(_noop(), h.loop)
+            try:
+                f.result(timeout=0.2)
+            except concurrent.futures.TimeoutError:
+                h.deadlocks.append(text)
+            except Exception:
+                h.deadlocks.append(text)
+    if text.startswith("boom"):
+        raise KeyError(text)
+    if text.startswith("lam"):
+        return lambda: None
+    return "echo:" + text
 
 
 class Spin(BaseException):
@@ -80,7 +111,7 @@ class _UuidShim:
 
 HIGH_WATER = 16 * 1024     # write-buffer high-water mark of the in-memory transport
 CALL_KINDS = {"call": None, "bigcall": 70000, "hugecall": 300000,   # kind -> extra request payload
-              "failcall": None, "badresult": None}      # (server mode) evaluation raises / result unpicklable
+              "failcall": None, "badresult": None, "relaycall": None}      # (server mode) evaluation raises / result unpicklable
 
 
 class FakeWriter:
@@ -166,7 +197,8 @@ class _ServerKlong:
     """interpreter of the server side: evaluates request texts; `boom…` raises, `lam…` returns a
     value that cannot be pickled"""
 
-    def __init__(self):
+    def __init__(self, h):
+        self.h = h
         self._context = {}
 
     def __getitem__(self, k):
@@ -175,11 +207,7 @@ class _ServerKlong:
         raise KeyError(k)
 
     def __call__(self, text):
-        if text.startswith("boom"):
-            raise KeyError(text)
-        if text.startswith("lam"):
-            return lambda: None
-        return "echo:" + text
+        return evaluate_text(self.h, text)
 
 
 def make_provider(ipc, h, reader, writer):
@@ -310,6 +338,10 @@ class Harness:
         self.duplex = bool(server)  # a real server-side NetworkClient answers instead of a stream
         self.server_closed = False
         self.unanswered_blocked = []
+        self.off_klong_evals = []   # commands evaluated from a task not scheduled on the klong loop
+        self.deadlocks = []         # ... that really blocked on the io loop from its own thread
+        self.pushes = []            # (id, body) of push requests fed whole on a healthy connection
+        self.unanswered_pushes = []
         self.srv_parse = 0
         self.congested = False
         self.vtime = 1000.0
@@ -355,13 +387,30 @@ class Harness:
         self.reader = self._make_reader()
         self.writer = FakeWriter(self)
         self.provider = make_provider(ipc, self, self.reader, self.writer)
-        self.shutdown_event = None
-        if any(c.kind == "shutdown" for c in self.callers):
-            from klongpy.utils import CallbackEvent
-            self.shutdown_event = CallbackEvent()
+        from klongpy.utils import CallbackEvent
+        self.shutdown_event = CallbackEvent()
         self.klong = _FakeKlong(self)
-        self.nc = ipc.NetworkClient(self.loop, _FakeKlongLoop(self.loop), self.klong, self.provider,
-                                    shutdown_event=self.shutdown_event)
+        self.klongloop = _FakeKlongLoop(self.loop)
+        self.system = {"ioloop": self.loop, "klongloop": self.klongloop, "closeEvent": self.shutdown_event}
+        self.nc = None
+        # the client is built the way `.cli(addr)` builds it (eval_sys_fn_create_client), with
+        # run_client() held back; only the connection provider is replaced by the in-memory one
+        saved_run_client = ipc.NetworkClient.run_client
+        ipc.NetworkClient.run_client = lambda nc_self: nc_self
+        try:
+            nc = ipc.eval_sys_fn_create_client(self.klong, "localhost:1")
+            if isinstance(nc, ipc.NetworkClient):
+                self.nc = nc
+                nc.conn_provider = self.provider
+        except Exception as e:  # noqa
+            self.notes.append(f".cli could not build the client: {type(e).__name__}: {e}")
+        finally:
+            ipc.NetworkClient.run_client = saved_run_client
+        if self.nc is None:
+            self.nc = ipc.NetworkClient(self.loop, self.klongloop, self.klong, self.provider,
+                                        shutdown_event=self.shutdown_event)
+        if self.nc.ioloop is not self.loop or self.nc.klong is not self.klong:
+            self.notes.append(".cli wired the client to another io loop / interpreter")
         self.nc.pending_responses = HookDict(self)
         self.saved_uuid = ipc.uuid
         ipc.uuid = _UuidShim(self)
@@ -373,7 +422,7 @@ class Harness:
             self.server_writer = ServerWriter(self)
             self.tcp = ipc.TcpServerHandler()
             self.tcp.connection_handler = ipc.TcpServerConnectionHandler(
-                self.loop, _FakeKlongLoop(self.loop), _ServerKlong())
+                self.loop, _FakeKlongLoop(self.loop), _ServerKlong(self))
             self.server_task = self.loop.create_task(
                 self.tcp.handle_client(self.server_reader, self.server_writer))
         self.iterate()
@@ -535,7 +584,7 @@ class Harness:
 
     def request_of(self, c):
         if self.duplex:
-            return {"failcall": "boom", "badresult": "lam"}.get(c.kind, "expr") + str(c.k)
+            return {"failcall": "boom", "badresult": "lam", "relaycall": "relay"}.get(c.kind, "expr") + str(c.k)
         return ("req", c.k) if c.payload is None else ("req", c.k, "q" * c.payload)
 
     # ------------------------------------------------------------------ server end of the wire
@@ -781,6 +830,9 @@ class Harness:
                     # a close ack / close request / failing push ends the connection by protocol:
                     # frames behind it need not be dispatched
                     self.poisoned = True
+                if a < e <= b and fid >= self.K_UNKNOWN and not self.fault and not self.poisoned \
+                        and not self.duplex:
+                    self.pushes.append((fid, body))
                 if a < e <= b and fid < len(self.callers):
                     c = self.callers[fid]
                     c.answers.append(body)
@@ -881,6 +933,14 @@ class Harness:
             # open: a call still waiting for its answer will never get one and never be failed
             self.unanswered_blocked = [c.k for c in self.callers
                                        if c.submitted and not c.finished and c.hphase == "waiting"]
+        if self.pushes and not self.fault and not self.wr_broken and self.loop_idle():
+            # a request of the peer to this side (server -> client push) that arrived on a healthy
+            # connection must have been evaluated and answered with a frame carrying its id
+            answered = set()
+            for raw in self.listener_writes:
+                if len(raw) >= 20:
+                    answered.add(int.from_bytes(raw[:16], "big"))
+            self.unanswered_pushes = [fid for fid, _ in self.pushes if fid not in answered]
         if self.listener_state() == "listening" and not self.wr_broken and self.loop_idle():
             # healthy connection, nothing left to run: a caller blocked in result() whose request
             # was never handed to the writer can never be answered
@@ -1107,7 +1167,9 @@ class _FakeKlongLoop:
         self.loop = loop
 
     def call_soon_threadsafe(self, fn, *args):
-        return self.loop.call_soon(fn, *args)
+        ctx = contextvars.copy_context()
+        ctx.run(ON_KLONG.set, True)         # tasks created from here run "on the klong loop"
+        return self.loop.call_soon(fn, *args, context=ctx)
 
 
 class _FakeKlong:
@@ -1115,8 +1177,13 @@ class _FakeKlong:
         self.h = h
         self._context = {}
 
+    def __getitem__(self, k):
+        if k == ".system":
+            return self.h.system
+        raise KeyError(k)
+
     def __call__(self, text):
         for v in self.h.fail_values:
             if str(v) == text:
                 raise KeyError(text)
-        return "echo:" + text
+        return evaluate_text(self.h, text)
